@@ -2,6 +2,7 @@
 from symx.api import H
 from spec import enc
 from harness.dwarfkit import mk_dwarfinfo, unit_header, abbrev_table
+from harness import c04 as C4
 
 PROPERTY = 'C07'
 ASSUMPTIONS = [
@@ -570,6 +571,9 @@ def _v5_instances(tier):
 
 
 HARNESSES = [
+    H('h7_3_list_pointer_forms', C4.h_forms, lambda tier: [c for c in C4._form_instances(tier) if C4.F.FORMS[c['form']][0] in ('DW_FORM_loclistx', 'DW_FORM_rnglistx', 'DW_FORM_sec_offset', 'DW_FORM_data4', 'DW_FORM_data8')], expect=('ok',),
+      desc='the attribute value that designates a list: DW_FORM_loclistx / rnglistx (index resolved through the unit\'s offset table, base attribute before or after), sec_offset, data4/8 - stored directly, '
+           'behind DW_FORM_indirect, in the top entry or in a child entry (harness shared with C04)'),
     H('h7_1_v4', h_v4, _v4_instances, expect=('ok',),
       desc='.debug_loc / .debug_ranges lists of 0-3 entries + terminator at an offset: begin/end/base and expression bytes symbolic; base-selection sentinel 2^(8*addr)-1; entry offsets and lengths exact'),
     H('h7_2_v5', h_v5, _v5_instances, expect=('ok',),
